@@ -179,9 +179,9 @@ func (q rtmrReq) String() string {
 }
 
 func C17(c *core.Ctx) {
-	c.Rule = "requests over the alphabet index in {-1..5, MinInt, MaxInt} x digest lengths {0,1,32,47,48,49,64} / event logs {empty, 1 byte, 100 bytes} x hash algorithms {SHA-384, SHA-256, SHA-512, SHA-1, 0}; every single request on empty and pre-populated TSMs (entries bound to other indices, unreadable / unparsable index files, an existing entry for the index, newline-terminated index), and sequences of up to k requests (k = 6 quick, 10 thorough) against a model TSM client that records ReadDir / ReadFile index / MkdirTemp / WriteFile index / WriteFile digest and implements register extension. Ground truth: rejected requests perform no operation; accepted ones exactly one digest write of the exact digest on the entry bound to the index (re-used when it exists); registers equal the extend chain of the accepted digests per index in call order. non-trivial = history with at least one accepted request; distinct = distinct (initial TSM, request sequence)"
+	c.Rule = "requests over the alphabet index in {-1..5, MinInt, MaxInt, and values congruent to 0..3 modulo 2^8, 2^16, 2^32} x digest lengths {0,1,32,47,48,49,64} / event logs {empty, 1 byte, 100 bytes} x hash algorithms {SHA-384, SHA-256, SHA-512, SHA-1, 0}; every single request on empty and pre-populated TSMs (entries bound to other indices, unreadable / unparsable index files, an existing entry for the index, newline-terminated index), and sequences of up to k requests (k = 6 quick, 10 thorough) against a model TSM client that records ReadDir / ReadFile index / MkdirTemp / WriteFile index / WriteFile digest and implements register extension. Ground truth: rejected requests perform no operation; accepted ones exactly one digest write of the exact digest on the entry bound to the index (re-used when it exists); registers equal the extend chain of the accepted digests per index in call order. non-trivial = history with at least one accepted request; distinct = distinct (initial TSM, request sequence)"
 	r := c.Rng
-	indices := []int{-1, 0, 1, 2, 3, 4, 5, math.MinInt, math.MaxInt}
+	indices := []int{-1, 0, 1, 2, 3, 4, 5, math.MinInt, math.MaxInt, 255, 256, 257, 259, 260, -253, -256, 1 << 32, 1<<32 + 2, 1<<16 + 3, -(1 << 32) + 1}
 	dlens := []int{0, 1, 32, 47, 48, 49, 64}
 	algos := []crypto.Hash{crypto.SHA384, crypto.SHA256, crypto.SHA512, crypto.SHA1, 0}
 	randReq := func() rtmrReq {
